@@ -3,6 +3,7 @@
    Strings are lists of byte values; 47 = '/', 46 = '.', 37 = '%', 92 = '\'. *)
 From Coq Require Import List ZArith Bool.
 Require Import MTX.Lib.PathClean MTX.Model.C26_RecPath MTX.Model.C06_PathName MTX.Proofs.C06_PathName.
+Require Import MTX.Model.C06_Listing MTX.Proofs.C06_Listing.
 Import ListNotations.
 Local Open Scope Z_scope.
 
@@ -141,3 +142,76 @@ Theorem C06_guard_passes : forall cwd f ts n, valid n = true -> format_ok f = tr
   inside cwd (common_path f) (expand_path f ts n) = Some (find_record_path cwd f ts n).
 Proof. exact guard_passes. Qed.
 Print Assumptions C06_guard_passes.
+
+(* ---------------------------------------------------------------------------------------------------
+   The listing side: recordstore.FindAllPathsWithSegments (API recordings list, record cleaner) reads path
+   NAMES back from the file names of the recording tree. `tree root` = the regular files WalkDir visits from
+   root (any function: all directory contents, valid and invalid decoded names side by side); `re` = the
+   configuration's regular expression as a boolean function (any); f = any record path format, in
+   particular the flat layouts with %path in the file name. *)
+
+(* regexpPathFindPathsWithSegments: every returned name was decoded from a visited file, is a valid path
+   name and matches the regular expression -- per file, whatever else its directory contains *)
+Theorem C06_listing_regexp_sound : forall re loff cwd f ts files p,
+  In p (regexp_paths re loff cwd f ts files) ->
+  valid p = true /\ re p = true /\
+  exists v, In v files /\ decoded_name loff (list_record_path cwd f ts) v = Some p.
+Proof. exact regexp_paths_sound. Qed.
+Print Assumptions C06_listing_regexp_sound.
+
+(* ... and no recording is hidden: a visited file whose decoded name is valid and matches is listed *)
+Theorem C06_listing_regexp_complete : forall re loff cwd f ts files v p,
+  In v files -> decoded_name loff (list_record_path cwd f ts) v = Some p -> valid p = true -> re p = true ->
+  In p (regexp_paths re loff cwd f ts files).
+Proof. exact regexp_paths_complete. Qed.
+Print Assumptions C06_listing_regexp_complete.
+
+(* FindAllPathsWithSegments lists p iff some configuration admits it: a non-regexp configuration admits its
+   own name (when one of its files decodes), a regexp configuration admits the valid, matching names decoded
+   from the files below its walk root *)
+Theorem C06_listing_iff : forall tree loff cwd confs p,
+  In p (find_all tree loff cwd confs) <-> exists c, In c confs /\ conf_admits tree loff cwd c p.
+Proof. exact find_all_iff. Qed.
+Print Assumptions C06_listing_iff.
+
+(* every listed name is a valid path name (names of non-regexp configurations are validated when the
+   configuration is loaded: hypothesis) ... *)
+Theorem C06_listing_valid : forall tree loff cwd confs p,
+  fixed_names_valid confs -> In p (find_all tree loff cwd confs) -> valid p = true.
+Proof. exact find_all_valid. Qed.
+Print Assumptions C06_listing_valid.
+
+(* ... hence has the documented shape *)
+Theorem C06_listing_shape : forall tree loff cwd confs p,
+  fixed_names_valid confs -> In p (find_all tree loff cwd confs) ->
+  p <> [] /\ (forall c, In c p -> allowed c) /\ hd 0 p <> 47 /\ last p 0 <> 47
+  /\ (forall segs, segs <> [] -> Forall no47 segs -> join47 segs = p -> ~ In [46] segs /\ ~ In [46; 46] segs).
+Proof. intros tree loff cwd confs p Hf Hin. apply valid_shape. eapply find_all_valid; eauto. Qed.
+Print Assumptions C06_listing_shape.
+
+(* ... and, asked back through FindSegments (what the API list and the cleaner do with a listed name), only
+   yields files under the absolute common path of a covered format *)
+Theorem C06_listing_then_contained : forall tree loff cwd confs p f ts v,
+  fixed_names_valid confs -> In p (find_all tree loff cwd confs) ->
+  format_ok f = true -> cwd_ok cwd = true ->
+  match decode loff (find_record_path cwd f ts p) v with Some _ => true | None => false end = true ->
+  find_candidate loff cwd f ts p v = true /\ path_under (abs cwd (common_path f)) v = true.
+Proof. exact listed_then_contained. Qed.
+Print Assumptions C06_listing_then_contained.
+
+(* non-vacuity, and why the check has to be made per FILE: flat layout "rec/%path_%s", working directory /w,
+   the files /w/rec/cam1_1700000000.mp4 and "/w/rec/zz bad_1700000000.mp4" side by side, all_others (every
+   name matches): the code lists cam1 only; the variant that decides once per directory (first file of the
+   directory decides) lists the invalid name "zz bad" too *)
+Example C06_listing_flat_layout :
+  let f := [114;101;99;47;37;112;97;116;104;95;37;115] in
+  let files := [[47;119;47;114;101;99;47;99;97;109;49;95;49;55;48;48;48;48;48;48;48;48;46;109;112;52]; [47;119;47;114;101;99;47;122;122;32;98;97;100;95;49;55;48;48;48;48;48;48;48;48;46;109;112;52]] in
+  let re := fun _ : list Z => true in
+  find_all (fun _ => files) 0 cwd_w [LRegexp re f false] = [[99;97;109;49]]
+  /\ fixed_names_valid [LRegexp re f false]
+  /\ decoded_name 0 (list_record_path cwd_w f false) [47;119;47;114;101;99;47;122;122;32;98;97;100;95;49;55;48;48;48;48;48;48;48;48;46;109;112;52] = Some [122;122;32;98;97;100] /\ valid [122;122;32;98;97;100] = false
+  /\ regexp_paths_dircache re 0 cwd_w f false [] files = [[99;97;109;49]; [122;122;32;98;97;100]].
+Proof.
+  cbv zeta. split; [vm_compute; reflexivity|]. split; [intros name f ts [H|[]]; discriminate H|].
+  vm_compute. repeat split.
+Qed.
